@@ -1,7 +1,7 @@
 (* SuccPred.v — Date::succ / Date::pred on canonical dates: the calendar's date for the next / previous
    day number, absent only at the 32-bit limits. *)
 From JV Require Import Sem Gen Spec SpecX.
-From JV.Proofs Require Import SpecFacts GapFacts Cal Cmp Inner Year MonthGeom Shape Month MonthSpec SpecSums Walk SpecOrd SpecInv AtJdn AtYmd SpecSets SpecStep.
+From JV.Proofs Require Import SpecFacts GapFacts Cal Cmp Inner Year MonthGeom Shape Month MonthSpec SpecSums Walk SpecOrd SpecInv AtJdn AtYmd SpecSets SpecStep Meq.
 Open Scope Z_scope.
 Ltac Zify.zify_post_hook ::= Z.to_euclidean_division_equations.
 
@@ -15,29 +15,43 @@ Proof. unfold date_of. destruct (lbl c j) as [[y m] d]. cbn. repeat split; refle
 Lemma year_i32 c j : in_i32 j -> in_i32 (l_year (lbl c j)).
 Proof. intros H. rewrite lbl_year_eq. destruct (is_old c j); [apply i32_year_j|apply i32_year_g]; exact H. Qed.
 
+(* next_year_after / prev_year_before: facts first, then evaluation of whatever shape the code has *)
+Ltac ny_pre :=
+  repeat first
+  [ progress cbn [bind]
+  | progress cbv zeta
+  | progress autounfold with gen_new
+  | rewrite Year.gap_ok ].
+Ltac ny_norm :=
+  repeat first
+  [ progress cbn [bind andb orb negb inner_ReformGap_f_pre_reform inner_ReformGap_f_post_reform inner_Date_f_year]
+  | progress cbv zeta
+  | rewrite i32_add_ok by assumption
+  | rewrite i32_sub_ok by assumption
+  | progress cmp_simpl
+  | match goal with |- context[if ?c then _ else _] => destruct c eqn:? end ].
+
 Lemma next_year_after_ok c y : ValidCal c -> in_i32 (y + 1) ->
   Calendar_next_year_after (cal_of c) y = Ret (next_year c y).
 Proof.
-  intros V Hy. unfold Calendar_next_year_after. cbv zeta. rewrite Year.gap_ok. cbn [bind].
-  destruct c as [| |r]; cbn [next_year]; try (rewrite i32_add_ok by exact Hy; reflexivity).
-  unfold gap_of. cbn [ValidCal] in V.
+  intros V Hy. unfold Calendar_next_year_after. ny_pre.
+  destruct c as [| |r]; cbn [next_year]; try (ny_norm; reflexivity).
+  cbn [ValidCal] in V. unfold gap_of.
   destruct (jlabel (r - 1)) as [[py pm] pd] eqn:EP. destruct (glabel r) as [[qy qm] qd] eqn:EQ.
   assert (PY : jyear (r - 1) = py) by (unfold jlabel in EP; destruct (md_of _ _); inversion EP; reflexivity).
   assert (QY : gyear r = qy) by (unfold glabel in EQ; destruct (md_of _ _); inversion EQ; reflexivity).
-  rewrite PY, QY. cbn [inner_ReformGap_f_pre_reform inner_ReformGap_f_post_reform inner_Date_f_year].
-  destruct ((y =? py) && (py <? qy)); [reflexivity|]. rewrite i32_add_ok by exact Hy. reflexivity.
+  rewrite ?PY, ?QY. ny_norm; first [ reflexivity | exfalso; lia | f_equal; lia ].
 Qed.
 Lemma prev_year_before_ok c y : ValidCal c -> in_i32 (y - 1) ->
   Calendar_prev_year_before (cal_of c) y = Ret (prev_year c y).
 Proof.
-  intros V Hy. unfold Calendar_prev_year_before. cbv zeta. rewrite Year.gap_ok. cbn [bind].
-  destruct c as [| |r]; cbn [prev_year]; try (rewrite i32_sub_ok by exact Hy; reflexivity).
-  unfold gap_of. cbn [ValidCal] in V.
+  intros V Hy. unfold Calendar_prev_year_before. ny_pre.
+  destruct c as [| |r]; cbn [prev_year]; try (ny_norm; reflexivity).
+  cbn [ValidCal] in V. unfold gap_of.
   destruct (jlabel (r - 1)) as [[py pm] pd] eqn:EP. destruct (glabel r) as [[qy qm] qd] eqn:EQ.
   assert (PY : jyear (r - 1) = py) by (unfold jlabel in EP; destruct (md_of _ _); inversion EP; reflexivity).
   assert (QY : gyear r = qy) by (unfold glabel in EQ; destruct (md_of _ _); inversion EQ; reflexivity).
-  rewrite PY, QY. cbn [inner_ReformGap_f_pre_reform inner_ReformGap_f_post_reform inner_Date_f_year].
-  destruct ((y =? qy) && (py <? qy)); [reflexivity|]. rewrite i32_sub_ok by exact Hy. reflexivity.
+  rewrite ?PY, ?QY. ny_norm; first [ reflexivity | exfalso; lia | f_equal; lia ].
 Qed.
 
 (* what the walk returns on the fields of a date *)
@@ -57,6 +71,7 @@ Ltac sp_norm :=
   repeat first
   [ progress cbn [bind]
   | progress cbv zeta
+  | progress autounfold with gen_new
   | progress unfold Date_calendar, Date_year, Date_ordinal, Date_julian_day_number
   | match goal with
     | H : Date_f_calendar _ = _ |- _ => rewrite H
